@@ -208,7 +208,7 @@ func VerifH_C13_cacheStage() {
 
 // ---- C11: cache loader ----
 
-var c11Lines = [8]string{
+var c11Lines = [9]string{
 	`{"ip":"10.0.0.%","mac":"00:11:22:33:44:0%","vendor":"x"}`,      // valid
 	`{"ip":"10.0.0.%","mac":"00:11:22:33:44:1%","vendor":"","x":1}`, // valid, unknown extra field
 	`{"ip":"::ffff:10.0.0.%","mac":"00:11:22:33:44:2%"}`,            // valid, 16-byte spelling
@@ -217,16 +217,20 @@ var c11Lines = [8]string{
 	`{"ip":"10.0.0.%","mac":null}`,             // null mac
 	`{"mac":"00:11:22:33:44:6%"}`,              // no ip
 	`{"ip":"10.0.0.%","mac":"00:11:22:33:44"}`, // bad mac
+	`{"ip":"fe80::a00:%","mac":"00:11:22:33:44:8%"}`, // valid IPv6 line whose last 32 bits spell 10.0.0.%: another host
 }
 
 func c11LineIP(c, i int) net.IP {
 	if c == 3 {
 		return net.IPv4(10, 0, 0, 1)
 	}
+	if c == 8 {
+		return net.ParseIP("fe80::a00:" + string(rune('1'+i)))
+	}
 	return net.IPv4(10, 0, 0, byte(1+i))
 }
 
-// VerifH_C11_fillCache: every cache file of K lines over 8 line classes: the loader either refuses
+// VerifH_C11_fillCache: every cache file of K lines over 9 line classes: the loader either refuses
 // the file or maps each address to the MAC printed on its own (last) line.
 func VerifH_C11_fillCache() {
 	K := verifParam("K", 2)
@@ -234,7 +238,7 @@ func VerifH_C11_fillCache() {
 	var sb strings.Builder
 	for i := range cls {
 		c := ndU8("class")
-		verifAssume(c < 8)
+		verifAssume(c < 9)
 		cls[i] = int(verifConcretize(uint64(c)))
 		sb.WriteString(strings.ReplaceAll(c11Lines[cls[i]], "%", string(rune('1'+i))))
 		sb.WriteString("\n")
@@ -244,7 +248,7 @@ func VerifH_C11_fillCache() {
 	want := map[string]string{}
 	bad := false
 	for i, c := range cls {
-		if c >= 4 {
+		if c >= 4 && c <= 7 {
 			bad = true
 			break
 		}
@@ -267,8 +271,10 @@ func VerifH_C11_fillCache() {
 			verifAssert(got == nil, "an address from an unusable line was mapped to some MAC (a neighbour's?)")
 		}
 		// both spellings of the address reach the same entry
-		got4 := cache.Get(ip.To4())
-		verifAssert(string(got4) == string(got), "4-byte and 16-byte spelling of an address resolve differently")
+		if ip.To4() != nil {
+			got4 := cache.Get(ip.To4())
+			verifAssert(string(got4) == string(got), "4-byte and 16-byte spelling of an address resolve differently")
+		}
 	}
 }
 
